@@ -31,6 +31,11 @@ pub enum Op {
     Deregister { ep: u8, token: Vec<u8>, path: String },
     Changed { path: String, mid: u16, con: bool },
     Ack { ep: u8, mid: u16 },
+    /// an acknowledgement whose packet carries a token (the observer's, a stale or foreign one) and,
+    /// when `proper`, is shaped like a real ACK (type Acknowledgement, code 0.00)
+    AckWith { ep: u8, mid: u16, token: Vec<u8>, proper: bool },
+    /// the application reconfigures the limit while observers are registered
+    SetLimit(u8),
 }
 
 impl Op {
@@ -40,6 +45,8 @@ impl Op {
             Op::Deregister { ep, token, path } => format!("dereg(ep{},{},{})", ep, hex(token), path),
             Op::Changed { path, mid, con } => format!("{}({},mid{})", if *con { "CON" } else { "NON" }, path, mid),
             Op::Ack { ep, mid } => format!("ack(ep{},mid{})", ep, mid),
+            Op::AckWith { ep, mid, token, proper } => format!("ack(ep{},mid{},token {}{})", ep, mid, hex(token), if *proper { ",ACK 0.00" } else { "" }),
+            Op::SetLimit(n) => format!("set_limit({})", n),
         }
     }
 }
@@ -98,7 +105,8 @@ impl Model {
                     }
                 }
             }
-            Op::Ack { ep, mid } => {
+            Op::SetLimit(n) => self.limit = *n as u32,
+            Op::Ack { ep, mid } | Op::AckWith { ep, mid, .. } => {
                 for l in self.res.values_mut() {
                     for o in l.iter_mut() {
                         if o.ep == *ep && o.pending == Some(*mid) {
@@ -157,6 +165,15 @@ fn apply_real(s: &mut Subject<Ep>, op: &Op) {
         Op::Deregister { ep, token, path } => s.deregister(&req(*ep, token, path, 0)),
         Op::Changed { path, mid, con } => s.resource_changed(path, *mid, *con),
         Op::Ack { ep, mid } => s.acknowledge(&req(*ep, &[], "", *mid)),
+        Op::AckWith { ep, mid, token, proper } => {
+            let mut q = req(*ep, token, "", *mid);
+            if *proper {
+                q.message.header.set_type(coap_lite::MessageType::Acknowledgement);
+                q.message.header.code = coap_lite::MessageClass::Empty;
+            }
+            s.acknowledge(&q)
+        }
+        Op::SetLimit(n) => s.set_unacknowledged_limit(*n),
     }
 }
 
@@ -240,6 +257,19 @@ fn run_history(rep: &mut Report, limit: u8, ops: &[Op], paths: &[String], check_
             let got_list: Vec<(u8, Vec<u8>)> = seen.observers.iter().map(|o| (o.0, o.1.clone())).collect();
             let want_list: Vec<(u8, Vec<u8>)> = want.iter().map(|o| (o.ep, o.token.clone())).collect();
             if got_list != want_list {
+                if let Op::SetLimit(_) = op {
+                    // observers whose count exceeds a LOWERED limit may be dropped right away or at the next
+                    // round on their resource (the model does the latter); anything else is a disagreement
+                    let lim = m.limit;
+                    let without: Vec<(u8, Vec<u8>)> = want.iter().filter(|o| o.unack <= lim).map(|o| (o.ep, o.token.clone())).collect();
+                    if got_list == without {
+                        if let Some(l) = m.res.get_mut(path) {
+                            l.retain(|o| o.unack <= lim);
+                        }
+                        rep.count("evictions_at_set_limit_adopted");
+                        continue;
+                    }
+                }
                 let kind = classify_list_diff(op, &got_list, &want_list, which);
                 return Err((kind, format!("after {} resource {:?} lists {:?}, model says {:?}", op.short(), path, got_list, want_list), step));
             }
@@ -306,7 +336,8 @@ fn classify_list_diff(op: &Op, got: &[(u8, Vec<u8>)], want: &[(u8, Vec<u8>)], wh
         Op::Deregister { .. } => "deregister",
         Op::Changed { con: true, .. } => "eviction-after-confirmable-round",
         Op::Changed { con: false, .. } => "eviction-after-nonconfirmable-round",
-        Op::Ack { .. } => "acknowledge",
+        Op::Ack { .. } | Op::AckWith { .. } => "acknowledge",
+        Op::SetLimit(_) => "set-limit",
     };
     let dir = if got.len() > want.len() {
         "observer-kept"
@@ -475,12 +506,65 @@ fn directed_token_pairs(rep: &mut Report, limit: u8, which: &str, is15: bool) {
     }
 }
 
+/// The limit is lowered while observers carry counts above the new value, then new endpoints
+/// register (lists of exactly 4, 8, 16 observers included), old ones re-register, deregister,
+/// acknowledge with all kinds of tokens - and only then the next round happens.
+fn directed_limit_changes(rep: &mut Report, which: &str, is15: bool, level: u32) {
+    let paths = vec!["r".to_string(), "s".to_string()];
+    let sizes: &[u8] = if level == 0 { &[4] } else { &[1, 2, 3, 4, 5, 7, 8, 9, 16, 17] };
+    for &n in sizes {
+        for rounds in 1..=3u8 {
+            for lo in 0..rounds {
+                for variant in 0..4u8 {
+                    let mut ops: Vec<Op> = Vec::new();
+                    for e in 1..=n {
+                        ops.push(Op::Register { ep: e, token: vec![e, 0x55], path: "r".into() });
+                    }
+                    ops.push(Op::Register { ep: 1, token: vec![1], path: "s".into() });
+                    for k in 0..rounds {
+                        ops.push(Op::Changed { path: "r".into(), mid: 100 + k as u16, con: true });
+                    }
+                    // some acknowledge the last round: with no token, their own, a foreign or a truncated one
+                    for e in (1..=n).filter(|e| e % 3 == variant % 3) {
+                        let tok = match (e + variant) % 4 {
+                            0 => vec![],
+                            1 => vec![e, 0x55],
+                            2 => vec![0xEE; 8],
+                            _ => vec![e],
+                        };
+                        ops.push(Op::AckWith { ep: e, mid: 100 + rounds as u16 - 1, token: tok, proper: e % 2 == 0 });
+                    }
+                    ops.push(Op::SetLimit(lo));
+                    ops.push(Op::Register { ep: 200, token: vec![200], path: "r".into() });
+                    if variant >= 1 {
+                        ops.push(Op::Register { ep: 2.min(n), token: vec![9, 9], path: "r".into() });
+                        ops.push(Op::Register { ep: 201, token: vec![], path: "r".into() });
+                    }
+                    if variant >= 2 {
+                        ops.push(Op::Deregister { ep: 1, token: vec![1, 0x55], path: "r".into() });
+                        ops.push(Op::Ack { ep: n, mid: 100 + rounds as u16 - 1 });
+                    }
+                    ops.push(Op::Changed { path: "r".into(), mid: 300, con: variant % 2 == 0 });
+                    ops.push(Op::SetLimit(3));
+                    ops.push(Op::Changed { path: "r".into(), mid: 301, con: true });
+                    ops.push(Op::Changed { path: "s".into(), mid: 302, con: true });
+                    rep.eval();
+                    match run_history(rep, 3, &ops, &paths, is15, which) {
+                        Ok(()) => rep.count("limit_change_histories_held"),
+                        Err((sig, detail, step)) => rep.violation(&sig, format!("step {}: {}", step, detail), history_text(3, &ops[..=step.min(ops.len() - 1)])),
+                    }
+                }
+            }
+        }
+    }
+}
+
 fn random_history(r: &mut Rng, len: usize, paths: &[String]) -> Vec<Op> {
     let fam = token_family(r);
     let fixed: [&[u8]; 4] = [&[], &[1], &[2, 2], &[1, 2, 3, 4, 5, 6, 7, 8]];
     let toks: Vec<&[u8]> = if r.bool() { fixed.to_vec() } else { (0..4).map(|_| r.pick(&fam).as_slice()).collect() };
     let mut ops = Vec::with_capacity(len);
-    let neps = *r.pick(&[1u64, 2, 3, 6]);
+    let neps = *r.pick(&[1u64, 2, 3, 6, 9, 17]);
     // message ids that collide under truncation / hashing (same low bits, same high byte, ...)
     let base = r.next_u64() as u16;
     let offsets = [0u16, 1, 2, 16, 32, 64, 128, 256, 512, 1024, 4096, 0x8000, 0x00ff, 0xff00];
@@ -492,6 +576,8 @@ fn random_history(r: &mut Rng, len: usize, paths: &[String]) -> Vec<Op> {
             0 | 1 => Op::Register { ep, token: r.pick(&toks).to_vec(), path },
             2 => Op::Deregister { ep, token: r.pick(&toks).to_vec(), path },
             3..=6 => Op::Changed { path, mid: *r.pick(&mids), con: r.chance(3, 4) },
+            _ if r.chance(1, 12) => Op::SetLimit(*r.pick(&[0u8, 1, 2, 3, 5, 255])),
+            _ if r.bool() => Op::AckWith { ep, mid: *r.pick(&mids), token: if r.bool() { r.pick(&toks).to_vec() } else { r.pick(&fam).clone() }, proper: r.bool() },
             _ => Op::Ack { ep, mid: *r.pick(&mids) },
         });
     }
@@ -567,6 +653,8 @@ pub fn run_observe(ctx: &mut Ctx, which: &str) {
     if shard == 0 || level == 0 {
         directed_token_pairs(rep, if is15 { 3 } else { 1 }, which, is15);
         rep.floor("token_pair_histories_held", 1);
+        directed_limit_changes(rep, which, is15, level);
+        rep.floor("limit_change_histories_held", 1);
     }
     // ---- random long histories over larger alphabets
     let big_paths: Vec<String> = ["a", "b/c", "x", "", "a/b", "/x", "a/", "/", "A"].iter().map(|s| s.to_string()).collect();
@@ -654,7 +742,8 @@ fn probe_check(rep: &mut Report, limit: u8, ops: &[Op], paths: &[String]) {
     for path in paths {
         if let Some(l) = m.res.get(path) {
             for o in l {
-                let want = limit as u32 - o.unack + 1;
+                // (the limit may have been changed along the way; an observer already above it goes at the next round)
+                let want = (m.limit + 1).saturating_sub(o.unack).max(1);
                 match guard(|| probe_remaining(limit, ops, path, o.ep)) {
                     Ok(Some(got)) if got == want => rep.count("probes_agree"),
                     Ok(got) => rep.violation("probe-remaining-budget", format!("observer ep{} on {:?}: disappears after {:?} further confirmable rounds, model says {}", o.ep, path, got, want), history_text(limit, ops)),
